@@ -16,6 +16,9 @@ var renameat2FailedWithENOSYS state.Marker
 // not supported on the platform as a whole. It retries on EINTR errors and
 // returns on the first successful call or non-EINTR error.
 func renameatNoReplaceRetryingOnEINTR(oldDirectory int, oldPath string, newDirectory int, newPath string) error {
+	if err := verifFault("renameat2", oldPath); err != nil {
+		return err
+	}
 	// If renameat2 is known to be unavailable, then return immediately.
 	if renameat2FailedWithENOSYS.Marked() {
 		return unix.ENOSYS
